@@ -5,4 +5,5 @@ module Char = Stdlib.Char
 let () =
   match Array.to_list Sys.argv with
   | _ :: "layout" :: _ -> Cmd_layout.run ()
+  | _ :: "recon" :: _ -> Cmd_recon.run ()
   | _ -> prerr_endline "usage: fvm <layout|...>"; exit 2
